@@ -1045,7 +1045,15 @@ impl<'a, 'b> GeneratorState<'a> {
                 self.generate_statement(body)?;
                 self.asm(JMP, &ExprType::Label(ifend_label.clone()), 0, false)?;
                 self.label(&else_label)?;
-                self.flags = saved_flags;
+                // The else branch of a simple condition is entered from one place, with the flags the
+                // condition left. A && or || condition jumps there from each of its operands
+                self.flags = match condition {
+                    Expr::BinOp { op: Operation::Land, .. } | Expr::BinOp { op: Operation::Lor, .. } => {
+                        FlagsState::Unknown
+                    }
+                    Expr::Not(_) => FlagsState::Unknown,
+                    _ => saved_flags,
+                };
                 self.generate_statement(else_statement)?;
                 self.label(&ifend_label)?;
             }
